@@ -93,18 +93,18 @@ Proof.
 Qed.
 
 (** a decoder state belonging to its table (irrelevant in RLE mode) *)
-Definition st_ok (t : fse_table) (rle : option Z) (st : fse_entry) : Prop :=
+Definition dstate_ok (t : fse_table) (rle : option Z) (st : fse_entry) : Prop :=
   match rle with Some _ => True | None => fse_range t /\ In st (t_decode t) end.
 
-Lemma code_of_range M t rle st : tab_ok M t rle -> st_ok t rle st -> 0 <= code_of rle st <= M.
+Lemma code_of_range M t rle st : tab_ok M t rle -> dstate_ok t rle st -> 0 <= code_of rle st <= M.
 Proof.
   intros (Hm & _ & Hr) Hs. unfold code_of. destruct rle as [c|]; [exact Hr|].
   destruct Hs as ((_ & _ & R) & Hin). destruct (R st Hin) as (_ & _ & _ & X). lia.
 Qed.
 
-Lemma step_state t rle st br : st_ok t rle st -> rwf br ->
+Lemma step_state t rle st br : dstate_ok t rle st -> rwf br ->
   match (match rle with None => fse_update_state t st br | Some _ => ROk (st, br) end) with
-  | ROk (st', br') => st_ok t rle st' /\ rwf br'
+  | ROk (st', br') => dstate_ok t rle st' /\ rwf br'
   | RErr _ => True
   | RPanic _ => False
   end.
@@ -123,7 +123,7 @@ Proof.
 Qed.
 
 Lemma seq_loop_no_panic n : forall total s ll ml of br done acc, fscratch_ok s ->
-  st_ok (fs_ll s) (fs_ll_rle s) ll -> st_ok (fs_ml s) (fs_ml_rle s) ml -> st_ok (fs_of s) (fs_of_rle s) of -> rwf br ->
+  dstate_ok (fs_ll s) (fs_ll_rle s) ll -> dstate_ok (fs_ml s) (fs_ml_rle s) ml -> dstate_ok (fs_of s) (fs_of_rle s) of -> rwf br ->
   no_panic (seq_loop n total s ll ml of br done acc).
 Proof.
   induction n as [|k IH]; intros total s ll ml of br done acc Hs Sll Sml Sof W; cbn [seq_loop]; [exact I|].
@@ -154,7 +154,7 @@ Qed.
 
 Lemma init_state t M rle br : tab_ok M t rle -> rwf br ->
   match (match rle with None => fse_init_state t br | Some _ => ROk (fse_dec_new t, br) end) with
-  | ROk (st, br') => st_ok t rle st /\ rwf br'
+  | ROk (st, br') => dstate_ok t rle st /\ rwf br'
   | RErr _ => True
   | RPanic _ => False
   end.
